@@ -51,7 +51,8 @@ FACETS = {
     "C02": ("valid-clone-failed", "success-with-wrong-output"),
     "C03": ("valid-in-place-clone-failed", "in-place-success-with-wrong-output"),
     "C06": ("output-length-differs-from-source-length", "grid-bytes-fetched-differ-from-missing-chunks"),
-    "C07": ("grid-requests-differ-from-maximal-runs",),
+    # (what is requested beyond the missing chunks also departs from "the maximal runs of the MISSING chunks")
+    "C07": ("grid-requests-differ-from-maximal-runs", "grid-bytes-fetched-differ-from-missing-chunks"),
     "C16": ("path-other-than-output-touched",),
     "C12": ("archive-depends-on-history-input-kind-or-verbosity", "valid-compress-failed"),
     # every archive of the grid was written by the binary's own compress: each clone cell is a round trip as well
@@ -214,7 +215,7 @@ def run_clone_cell(bita, root, idx, cell, arch_paths, server, viol, arch_bytes=N
         with open(os.path.join(d, "seed.bin"), "wb") as f:
             f.write(seed_data)
         argv += ["--seed", "seed.bin", "--seed", "-"] if cell["seed"] == "file,stdin" else ["--seed", "-", "--seed", "seed.bin"]
-        stdin_data = b"stdin-junk" + src[:len(src) // 2 // 4 * 4]
+        stdin_data = b"stdin-junk!!" + src[:len(src) // 2 // 4 * 4]
     elif cell["seed"] == "output-itself":
         # the output path named as a seed: must not change whether the command refuses
         argv += ["--seed", "out.img"]
@@ -281,7 +282,7 @@ def expected_runs(cell, kind, src, prior, seed_data, ab):
     if cell["seed"] in ("file", "stdin", "file,stdin", "stdin,file"):
         have |= {seed_data[i:i + 4] for i in range(0, len(seed_data) - 3, 4)}
     if cell["seed"] in ("file,stdin", "stdin,file"):
-        other = b"stdin-junk" + src[:len(src) // 2 // 4 * 4]
+        other = b"stdin-junk!!" + src[:len(src) // 2 // 4 * 4]
         have |= {other[i:i + 4] for i in range(0, len(other) - 3, 4)}
     order = []
     for i in range(0, len(src), 4):
